@@ -134,3 +134,26 @@ def measure(d, sc, I, handler_fail, table):
             table[key] = len(table) + 1
         script.append({"e": "yield", "a": table[key]})
     return script
+
+
+def suite_scenarios(d):
+    """the reference-bearing cases of the bundled official suite (ref.json, refRemote.json, definitions.json) as scenarios:
+    the executions the repository's own tests perform, here on ONE reused validator and under the model's eyes"""
+    import json
+    import os
+    from harness import calibrate
+    from harness.common import REPO
+    store = dict(calibrate.suite_remotes())
+    out = []
+    base = os.path.join(REPO, "json", "tests", "draft%d" % d)
+    for fn in ("ref.json", "refRemote.json", "definitions.json"):
+        p = os.path.join(base, fn)
+        if not os.path.exists(p):
+            continue
+        for case in json.load(open(p)):
+            if not isinstance(case["schema"], dict):
+                continue
+            insts = [t["data"] for t in case["tests"]][:4]
+            out.append(dict(name="suite:%s:%s" % (fn, case["description"]), schema=case["schema"], store=store, remote={},
+                            instances=insts, refs=["#"]))
+    return out
